@@ -280,6 +280,15 @@ def _run(case, ctx, sim):
         data = {'path-request': [rq_json(i) for i in order]}
         oms, pths, rpths, rqs, dsjn, res = planning(network, equipment, data)
         if any(not str(r.request_id).isdigit() for r in rqs):
+            # requests merged under a joined id: legitimate only if they are the same request once the LOOSE hops that could
+            # not be used (e.g. naming a fibre that auto-design split) are dropped
+            def essence(r):
+                return (r['src'], r['dst'], r['mode'], r['spacing'], r['nch'], r['bidir'],
+                        tuple(tuple(x) for x in r['include'] if x[2] == 'STRICT'), r.get('tx_power_dbm'))
+            merged = [[int(x) for x in str(r.request_id).split(' | ')] for r in rqs if not str(r.request_id).isdigit()]
+            if all(len({essence(reqs[i]) for i in g}) == 1 for g in merged):
+                ctx.label('not-judged:requests-identical-once-loose-hops-are-dropped')
+                return
             ctx.violation('distinct-requests-aggregated', f'order {order}: result ids {[r.request_id for r in rqs]}')
             return
         got = {int(r.request_id): summarise(r, p, rp) for r, p, rp in zip(rqs, pths, rpths)}
